@@ -64,7 +64,10 @@ def _line(draw):
     elif k == "l2url":
         f = ["h" + desc, draw(st.sampled_from(["URL:http://www.example.org/", "/URL:https://example.org/a?b=c", "URL:ftp://ftp.example.org/pub",
                                            "URL:mailto:a@example.org", "URL:news:comp.infosystems.gopher", "URL:tel:+15551234",
-                                           "URL:", "URL:x"]))]
+                                           "URL:", "URL:x",
+                                           # characters that markup-based protocols have to escape - once
+                                           "URL:http://www.example.com/find?q=gopher&lang=en", "URL:http://example.org/a?x=1&amp;y=<2>",
+                                           "URL:http://example.org/it's%20a%26b?c='d'&e"]))]
     elif k == "l3":
         f = [t + desc, "/" + draw(seg), draw(st.sampled_from(["other.example", "gopher.floodgap.com"]))]
     elif k == "l4":
